@@ -16,8 +16,11 @@
 package c14
 
 import (
+	"bytes"
+	"context"
 	"errors"
 	"fmt"
+	"io"
 	"io/fs"
 	"os"
 	"path"
@@ -34,8 +37,11 @@ import (
 	"github.com/go-git/go-git/v6/plumbing"
 	"github.com/go-git/go-git/v6/plumbing/cache"
 	"github.com/go-git/go-git/v6/plumbing/client"
+	"github.com/go-git/go-git/v6/plumbing/format/packfile"
 	"github.com/go-git/go-git/v6/plumbing/format/reflog"
 	"github.com/go-git/go-git/v6/plumbing/object"
+	"github.com/go-git/go-git/v6/plumbing/protocol/capability"
+	"github.com/go-git/go-git/v6/plumbing/protocol/packp"
 	"github.com/go-git/go-git/v6/plumbing/storer"
 	"github.com/go-git/go-git/v6/plumbing/transport"
 	"github.com/go-git/go-git/v6/storage"
@@ -100,6 +106,13 @@ type Plan struct {
 	Fetch        int `json:"fetch"`
 	FetchName    int `json:"fetch_name"`    // which plan name the remote advertises
 	FetchVariant int `json:"fetch_variant"` // names outside refs/: 0 as is, 1 under refs/heads/, 2 under refs/tags/
+	// Recv > 0: after the operations (instead of a fetch), the real server side
+	// of a push, transport.ReceivePack, on the storage under test with ONE
+	// command whose name is one of the plan's names.
+	Recv     int `json:"recv"`
+	RecvName int `json:"recv_name"`
+	RecvKind int `json:"recv_kind"` // 0 create, 1 update, 2 delete
+	RecvOld  int `json:"recv_old"`  // old value of update/delete: 0 hashA (refs/heads/main, ORIG_HEAD), 1 hashB, 2 hashC (shallow, info/exclude, planted files)
 }
 
 var opKinds = []string{"get", "set", "setsym", "symtarget", "cas", "remove", "list", "count", "pack", "follow", "rlread", "rlappend", "rldelete"}
@@ -251,10 +264,16 @@ func genPlan(r *core.Rand, tier string) any {
 		}
 		p.Ops = append(p.Ops, op)
 	}
-	if r.Chance(1, 25) {
+	switch k := r.Intn(75); {
+	case k < 3: // 1 in 25
 		p.Fetch = 1 + r.Intn(2)
 		p.FetchName = r.Intn(nn)
 		p.FetchVariant = r.Intn(3)
+	case k < 8: // 1 in 15
+		p.Recv = 1
+		p.RecvName = r.Intn(nn)
+		p.RecvKind = r.Intn(3)
+		p.RecvOld = r.Intn(3)
 	}
 	return p
 }
@@ -747,8 +766,9 @@ type env struct {
 	hlog  []string
 	links []linkKind
 	sent  string // sentinel digest (bytes outside the allowed area) at the start of the monitored phase
-	// fetching: the fetch phase legitimately writes packs under objects/pack and reads config/shallow
+	// fetching: the fetch or receive-pack phase legitimately writes packs under objects/pack and reads config/shallow
 	fetching bool
+	recving  bool // the phase is receive-pack (no reads of config/shallow are expected)
 }
 
 func (e *env) logf(format string, a ...any) {
@@ -838,7 +858,8 @@ func (e *env) judge(i int, kind string, names []plumbing.ReferenceName, ncls str
 			case e.fetching && hasPrefixComps(e.pers, pth, repo+"/objects"):
 				// a fetch stores the received pack and looks objects up
 				c = "fetch-objects"
-			case e.fetching && !op.Mutating && (c == "config" || hasPrefixComps(e.pers, pth, repo+"/shallow")):
+			case e.fetching && !e.recving && !op.Mutating && (c == "config" || hasPrefixComps(e.pers, pth, repo+"/shallow")):
+				// (a fetch reads them; ReceivePack never does, so there they stay judged)
 				c = "fetch-reads-" + path.Base(pth)
 			case viaOK && e.inLinkArea(pth):
 				c = "via-link"
@@ -1091,6 +1112,143 @@ func (e *env) step(i int, op Op) bool {
 	return e.judge(i, kind, names, ncls, treeWalk, start, err)
 }
 
+// pushPack: a commit with an empty tree and the pack that carries both
+// (constant content, built once).
+var pushPack struct {
+	built  bool
+	commit plumbing.Hash
+	pack   []byte
+}
+
+func buildPushPack() bool {
+	if pushPack.built {
+		return len(pushPack.pack) > 0
+	}
+	pushPack.built = true
+	ms := memory.NewStorage()
+	sig := object.Signature{Name: "T", Email: "t@example.com", When: fixedWhen}
+	to := ms.NewEncodedObject()
+	if err := (&object.Tree{}).Encode(to); err != nil {
+		return false
+	}
+	th, _ := ms.SetEncodedObject(to)
+	co := ms.NewEncodedObject()
+	if err := (&object.Commit{Author: sig, Committer: sig, Message: "c14 push", TreeHash: th}).Encode(co); err != nil {
+		return false
+	}
+	ch, _ := ms.SetEncodedObject(co)
+	hs := []plumbing.Hash{ch, th}
+	sort.Slice(hs, func(a, b int) bool { return hs[a].String() < hs[b].String() })
+	var buf bytes.Buffer
+	if _, err := packfile.NewEncoder(&buf, ms, false).Encode(hs, 0); err != nil {
+		return false
+	}
+	pushPack.commit, pushPack.pack = ch, buf.Bytes()
+	return true
+}
+
+type bufCloser struct{ bytes.Buffer }
+
+func (*bufCloser) Close() error { return nil }
+
+// recvStep runs the real server side of a push (transport.ReceivePack:
+// advertisement, update-request decoding, unpacking, updateReferences,
+// report-status) on the storage under test. The client is scripted: one
+// command (create with a commit carried by the accompanying pack, update, or
+// delete) whose name is one of the plan's names, exactly as the wire decoder
+// delivers it (fmt.Sscanf %s: cut at the first white space).
+func (e *env) recvStep(i int) bool {
+	raw := "refs/heads/topic"
+	if len(e.p.Names) > 0 {
+		raw = e.p.Names[mod(e.p.RecvName, len(e.p.Names))].raw()
+	}
+	if f := strings.Fields(raw); len(f) > 0 && !strings.ContainsRune(raw, 0) {
+		raw = f[0]
+	} else {
+		e.out.Probe("recv:name-not-encodable")
+		return true
+	}
+	if !buildPushPack() {
+		e.out.Probe("recv:no-pack")
+		return true
+	}
+	name := plumbing.ReferenceName(raw)
+	ncls := nameClass(raw)
+	old := plumbing.NewHash([]string{hashA, hashB, hashC}[mod(e.p.RecvOld, 3)])
+	cmd := &packp.Command{Name: name, Old: old, New: pushPack.commit}
+	kind := []string{"create", "update", "delete"}[mod(e.p.RecvKind, 3)]
+	switch kind {
+	case "create":
+		cmd.Old = plumbing.ZeroHash
+	case "delete":
+		cmd.New = plumbing.ZeroHash
+	}
+	req := &packp.UpdateRequests{}
+	req.Capabilities.Set(capability.ReportStatus)
+	req.Commands = []*packp.Command{cmd}
+	var in bytes.Buffer
+	if err := req.Encode(&in); err != nil {
+		e.out.Probe("recv:name-not-encodable")
+		return true
+	}
+	if kind != "delete" {
+		in.Write(pushPack.pack)
+	}
+	// An earlier symtarget step may have left HEAD / refs/heads/sym /
+	// refs/remotes/origin/HEAD pointing at a hostile target; the advertisement
+	// resolves symbolic references, the storage refuses the target and
+	// ReceivePack stops before it reads the request (probe
+	// recv:advertisement-would-fail). The administrator repairs them (direct
+	// image write, not part of the monitored footprint) so that the command
+	// itself is exercised.
+	for k, h := range []string{"HEAD", "refs/heads/sym", "refs/remotes/origin/HEAD"} {
+		b, ok := e.d.ReadFile(repo + "/" + h)
+		if !ok || !strings.HasPrefix(string(b), "ref: ") || string(b) == "ref: refs/heads/main\n" {
+			continue
+		}
+		e.out.Probe("recv:advertisement-would-fail")
+		v := hashA + "\n"
+		if k == 0 {
+			v = "ref: refs/heads/main\n"
+		}
+		_ = e.d.WriteFile(repo+"/"+h, []byte(v), 0o644)
+	}
+	e.fetching, e.recving = true, true
+	e.sent = e.sentinelDigest()
+	start := len(e.d.Log)
+	resp := &bufCloser{}
+	err := transport.ReceivePack(context.Background(), e.st, io.NopCloser(&in), resp, &transport.ReceivePackRequest{})
+	// report-status lines are looked up in the raw response: packp's client-side
+	// decoders refuse some advertisements / reasons that contain hostile names
+	status := "no-report"
+	out := resp.Bytes()
+	switch {
+	case bytes.Contains(out, []byte("ok "+raw+"\n")):
+		status = "ok"
+	case bytes.Contains(out, []byte("ng "+raw+" ")):
+		status = "ng"
+	case bytes.Contains(out, []byte("unpack ")) && !bytes.Contains(out, []byte("unpack ok")):
+		status = "unpack-failed"
+	}
+	e.out.Probe("recv:" + kind + ":" + status)
+	if status == "no-report" {
+		// the advertisement failed: a planted link or an unreadable ref file makes the listing fail
+		e.out.Probe("recv:no-report:" + errKind(err))
+		e.logf("%d recv: no report-status: %v", i, err)
+	}
+	e.out.Probe("recv-status:" + status + ":" + ncls)
+	if ncls == "pseudo" {
+		// HEAD / ORIG_HEAD / FETCH_HEAD-style names as push targets: inside the
+		// allowed area, only counted
+		e.out.Probe("recv-pseudo-target:" + kind + ":" + status)
+	}
+	if errors.Is(err, dotgit.ErrReferenceNameEscape) {
+		e.out.Probe("recv:refused-by-storage")
+	}
+	// the advertisement lists the references (tree walk)
+	return e.judge(i, "recv", []plumbing.ReferenceName{name}, ncls, true, start, err)
+}
+
 func execPlan(t *testing.T, pa any) (out core.Outcome) {
 	hooks.Deterministic(true)
 	p := pa.(*Plan)
@@ -1147,11 +1305,15 @@ func execPlan(t *testing.T, pa any) (out core.Outcome) {
 			break
 		}
 	}
-	// the end state is taken BEFORE the fetch phase: whether refs/heads/main
+	// the end state is taken BEFORE the fetch / receive-pack phase: whether refs/heads/main
 	// or the hostile name is applied first (Go map order inside Remote.Fetch)
 	// decides what a refused fetch leaves behind
 	out.StateHash = d.Digest(top, nil)
-	if p.Fetch > 0 && out.Signature == "" {
+	switch {
+	case out.Signature != "":
+	case p.Recv > 0:
+		e.recvStep(len(ops) + 1)
+	case p.Fetch > 0:
 		e.fetchStep(len(ops) + 1)
 	}
 	out.Probe("pers:" + pers.String())
@@ -1178,7 +1340,8 @@ func TestCheck(t *testing.T) {
 			"'', '.', '..', backslash, control characters, drive/absolute prefixes, trailing dot/space, ADS suffixes, git~1, HFS ignorable code points; 1 in 5 with backslash separators; delivered directly, " +
 			"as parsed from an advertisement line, or mapped through the default fetch refspec) x 3-12 operations (Reference, SetReference hash/symbolic, symbolic TARGET + ResolveReference, CheckAndSetReference, " +
 			"RemoveReference, IterReferences, listing followed by per-name lookups, CountLooseRefs, PackRefs, Reflog, AppendReflog, DeleteReflog); 1 plan in 25 ends with a real Remote.Fetch over the in-process file transport from a " +
-			"memory.Storage remote that advertises refs/heads/main plus one of the plan's names (as is, or under refs/heads/ or refs/tags/), refspec +refs/heads/*:refs/remotes/origin/* or +refs/*:refs/*; non-trivial = at least one generated name is non-canonical; distinct = distinct plan",
+			"memory.Storage remote that advertises refs/heads/main plus one of the plan's names (as is, or under refs/heads/ or refs/tags/), refspec +refs/heads/*:refs/remotes/origin/* or +refs/*:refs/*; 1 plan in 15 ends instead with the real server side of a push, transport.ReceivePack on the storage under test, " +
+			"fed a scripted update-request with one command (create with a commit carried by the accompanying pack / update / delete, old value drawn from the three hashes present in the image) named by one of the plan's names; non-trivial = at least one generated name is non-canonical; distinct = distinct plan",
 		Assumptions: []string{
 			"allowed area = /top/repo.git/refs/**, /top/repo.git/logs/**, /top/repo.git/packed-refs, /top/repo.git/.tmp and .tmp/._packed-refs* (tmpPackedRefsPrefix; billy TempFile with an empty dir), " +
 				"a file directly in /top/repo.git whose ON-DISK name is spelled [A-Z_]+ (the pseudo-ref slots ReferenceName.IsSafe admits: HEAD, ORIG_HEAD, FETCH_HEAD, ...), and non-mutating stat/readdir/mkdir-of-existing of /top/repo.git itself",
@@ -1190,19 +1353,22 @@ func TestCheck(t *testing.T) {
 			"the filesystem handed to go-git is a thin layer over simfs: backslash stays an ordinary character on posix/hfs (simfs would turn it into '/'), a component of only dots/spaces(+stream suffix) on ntfs and a component equal to '.'/'..' " +
 				"after dropping HFS-ignorable code points on hfs is treated as that dot component (the threat model of git's is_ntfs_dot_generic/is_hfs_dot_generic), and fs mode 2 joins names under /top/repo.git without clamping '..'",
 			"names are delivered as plumbing.ReferenceName values (directly, via NewReferenceFromStrings as the advertisement decoder does, via RefSpec.Dst as fetch does) and, in the fetch phase, over the wire from an advertising remote; " +
-				"during the fetch phase objects/** (the received pack) and non-mutating reads of config/shallow are additionally allowed, the fetch counts as a tree walk for planted links, it is the last step of its plan " +
-				"(descriptor release of the new pack happens in the background) and StateHash is taken before it (Remote.Fetch applies updates in Go map order and stops at the first refusal); the push direction (ReceivePack with hostile command names) is not driven",
+				"during the fetch phase objects/** (the received pack) and non-mutating reads of config/shallow are additionally allowed (receive-pack phase: objects/** only, so a command named OBJECTS is not observable there), the fetch counts as a tree walk for planted links, it is the last step of its plan " +
+				"(descriptor release of the new pack happens in the background) and StateHash is taken before it (Remote.Fetch applies updates in Go map order and stops at the first refusal); the receive-pack phase follows the same rules (op label recv; the command name is what packp's decoder delivers, i.e. cut at the first white space; " +
+				"pseudo-ref names such as HEAD/ORIG_HEAD/FETCH_HEAD as push targets are inside the allowed area and only counted: probes recv-pseudo-target:*)",
 		},
 		Real: []string{"filesystem.Storage / ReferenceStorage / ReflogStorage methods", "dotgit.validReferenceName, plumbing.ReferenceName.IsSafe, pathutil.IsNTFSDot/IsHFSDot",
 			"dotgit.Ref/SetRef/RemoveRef/Refs/CountLooseRefs/PackRefs/walkReferencesTree/rewritePackedRefsWithoutRef", "dotgit.ReflogReader/ReflogWriter/DeleteReflog, reflog.Encode/Decode",
-			"config.RefSpec.Match/Dst, plumbing.NewReferenceFromStrings", "git.Remote.Fetch, transport/file in-process client+UploadPack server, packp advertisement encode/decode (fetch phase)"},
-		Stub:    []string{"remote repository = memory.Storage (stores any name)", "disk (simfs: posix/ntfs/hfs name folding, symlinks, operation log with resolved paths)", "thin billy layer over simfs (backslash literal on posix/hfs, disguised-dot normalisation, unclamped join mode)"},
+			"config.RefSpec.Match/Dst, plumbing.NewReferenceFromStrings", "git.Remote.Fetch, transport/file in-process client+UploadPack server, packp advertisement encode/decode (fetch phase)",
+			"transport.ReceivePack: AdvertiseRefs, packp.UpdateRequests decode, packfile.UpdateObjectStorage, updateReferences, report-status (receive-pack phase)"},
+		Stub:    []string{"remote repository = memory.Storage (stores any name)", "push client = scripted update-request + pack in a bytes.Buffer", "disk (simfs: posix/ntfs/hfs name folding, symlinks, operation log with resolved paths)", "thin billy layer over simfs (backslash literal on posix/hfs, disguised-dot normalisation, unclamped join mode)"},
 		Runs:    map[string]int{"quick": 120000, "thorough": 2000000},
 		NewPlan: func() any { return &Plan{} },
 		Gen:     genPlan,
 		Exec:    execPlan,
 		RequiredProbes: []string{"refused:dotdot", "refused:dot", "refused:dot-disguise", "refused:backslash", "refused:ctl", "refused:abs", "refused:one-level-lower", "refused:empty-comp", "refused:outside-refs",
 			"accepted-inside:canonical", "accepted-inside:pseudo", "accepted-inside:ntfs-fold", "accepted-inside:hfs-fold", "via-link", "op:pack", "op:rlappend", "op:rldelete", "op:symtarget", "op:cas",
-			"pers:posix", "pers:ntfs", "pers:hfs", "fsmode:0", "fsmode:1", "fsmode:2", "fetch:ok", "fetch:refused-by-storage", "op:fetch"},
+			"pers:posix", "pers:ntfs", "pers:hfs", "fsmode:0", "fsmode:1", "fsmode:2", "fetch:ok", "fetch:refused-by-storage", "op:fetch",
+			"op:recv", "recv:refused-by-storage", "recv:create:ok", "recv:update:ok", "recv:delete:ok", "recv:create:ng"},
 	})
 }
